@@ -774,7 +774,9 @@ def cmd_check(prop, tier):
             # e.g. the first execution after a change to /repo/runtime recompiles the path dependencies
             # inside `cargo rustdoc`: slow once, not a property of pavexc. Recorded, not reported.
             observations["cpu_outlier_not_reproduced"] = observations.get("cpu_outlier_not_reproduced", 0) + 1
-    timeouts = [x for x in viols if x["signature"].startswith("wall-clock-timeout")]
+    # (a blueprint flagged `known_hang` in corpus.json carries its name in the signature: its timeouts are a
+    # recorded finding, re-running each of them would only cost another wall limit)
+    timeouts = [x for x in viols if x["signature"] == "wall-clock-timeout"]
     for x in timeouts:
         run = x["_run"]
         again = run_one(ctx, to_concrete(run), run["slot"])
